@@ -180,6 +180,7 @@ pub struct Client {
   pub stream: Option<DuplexStream>,
   pub buf: Vec<u8>,
   pub closed: bool,
+  pub stalled: bool,
 }
 
 // Splits what a client received into frames (header line, and payload + newline when the header
@@ -246,6 +247,9 @@ async fn drain(clients: &mut BTreeMap<u64, Client>, settle_ms: u64) -> Value {
   let mut per = serde_json::Map::new();
   for (k, cl) in clients.iter_mut() {
     let mut got = false;
+    if cl.stalled {
+      continue; // a peer that stopped reading
+    }
     if let Some(s) = cl.stream.as_mut() {
       let mut tmp = [0u8; 65536];
       loop {
@@ -339,14 +343,14 @@ async fn run_history(c: &Value) -> Value {
     match t {
       "open" => {
         let k = op["k"].as_u64().unwrap();
-        let (cl, srv) = tokio::io::duplex(1 << 20);
+        let (cl, srv) = tokio::io::duplex(op.get("duplex").and_then(|v| v.as_u64()).unwrap_or(1 << 20) as usize);
         let mng2 = mng.clone();
         let f2 = factory.clone();
         let h = tokio::task::spawn_local(async move {
           mng2.run_connection(srv.compat(), f2).await;
         });
         tasks.insert(k, h);
-        clients.insert(k, Client { stream: Some(cl), buf: Vec::new(), closed: false });
+        clients.insert(k, Client { stream: Some(cl), buf: Vec::new(), closed: false, stalled: false });
       },
       "send" => {
         let k = op["k"].as_u64().unwrap();
@@ -366,6 +370,12 @@ async fn run_history(c: &Value) -> Value {
         if let Some(cl) = clients.get_mut(&k) {
           cl.stream = None;
           cl.closed = true;
+        }
+      },
+      "stall" => {
+        let k = op["k"].as_u64().unwrap();
+        if let Some(cl) = clients.get_mut(&k) {
+          cl.stalled = op.get("on").and_then(|v| v.as_bool()).unwrap_or(true);
         }
       },
       "advance" => {
